@@ -84,7 +84,9 @@ prop(
     "axes that may be held deflected across the actions and are shaped differently or absent in the other mappings. Oracle: every "
     "Note Off at a key's release carries exactly the channel/pitch of the Note On observed at its press (reference model when the mode "
     "suppressed the Note On), exactly one in mode off, at most one otherwise, never a Note On; every octave/semitone/channel/mapping/"
-    "multinote/cc_learning press or release emits zero messages. Non-trivial = at least one key released under a different "
+    "multinote/cc_learning press or release emits zero messages. How octave/semitone/channel/mapping move is C04's business: from the first step at "
+    "which the device reports another state than the model of C04, only what is observed on the wire is asserted (pinned releases, silent actions). "
+    "Non-trivial = at least one key released under a different "
     "(octave, semitone, channel, mapping) than at its press; distinct by hash of the case.",
     [dict(test="TestC02", shards=16, checks_quick=8000, checks_thorough=60000)],
     level_text="Generated-history search against a wire-level pairing oracle (observed Note On vs observed Note Off per key).",
@@ -97,7 +99,9 @@ prop(
     "Worlds with 2-8 note keys whose base notes lie within +-2 semitones / +-1-2 octaves of one centre and offsets in {0,1,7,15}, so that "
     "keys collide directly, through transposition taps made between presses, or through channel changes; 4 modes. TestC03Words enumerates "
     "ALL alternating press/release words over 3 colliding keys up to length 8 (quick: 6) per mode. Oracle: reference model of the four emission "
-    "rules, exact message sequence per press/release step. Non-trivial = a press or release while >= 1 other key holds the same "
+    "rules, exact message sequence per press/release step (a history is asserted up to the first step before which the device reports another "
+    "octave/semitone/channel/mapping than the model of C04 - which keys collide follows from those, how they move is C04's business). "
+    "Non-trivial = a press or release while >= 1 other key holds the same "
     "(channel, pitch); distinct by hash of the case.",
     [
         dict(test="TestC03", shards=16, checks_quick=8000, checks_thorough=60000),
@@ -133,9 +137,10 @@ prop(
     "cases the panic is triggered by pushing a hat bound to the panic action instead of the key; the worlds have exit sequences (often containing "
     "the panic key) that never complete; a third of the histories bind any action to any key (AnyAction), and a tenth construct a STALE pair mark "
     "directly (pair X completed while pair Y is held, Y released, panic here: X is marked held although its reset never ran). "
-    "Oracle: (1) the panic step emits only CC123 and Note Offs on the channel the device reported before the panic, CC123 present, all 128 pitches covered, state unchanged; "
+    "Oracle: (1) the panic step emits CC123 and a Note Off for each of the 128 pitches on the channel the device reported before the panic, beyond that only messages "
+    "that silence (Note Offs and All Notes Off / All Sound Off on any channel), in any order; state unchanged; "
     "(2) metamorphic: every other step emits exactly what the same history without the panic emits (releases of keys held across the panic may "
-    "emit nothing instead), states equal; (3) quiescence/disconnect leave nothing sounding. Non-trivial = panic with >= 1 key held and a later press.",
+    "emit nothing instead; a panic that both histories contain is compared as a set of messages), states equal; (3) quiescence/disconnect leave nothing sounding. Non-trivial = panic with >= 1 key held and a later press.",
     [
         dict(test="TestC13", shards=16, checks_quick=4000, checks_thorough=40000),
         dict(test="TestC13All", shards=16, checks_quick=150, checks_thorough=1500),
@@ -308,7 +313,7 @@ prop(
     "(only with unusable content); candidate files and nested directories under odd names (blanks, Cyrillic, Latin-1 bytes that are not UTF-8, a "
     "leading dot, 170 characters); in a quarter of the cases the user's file for the exact identifier is called like the factory default file "
     "(a name decides nothing, the identifier inside does); valid configs of other devices; one of the four directories missing in 1/5 of the cases. Oracle: no panic; "
-    "all directories present -> no error and FindConfig returns the file the precedence list names (checked by tag, type and file name) or an "
+    "all directories present -> no error and FindConfig returns the file the precedence list names (checked by tag, type and - whatever its spelling - file name) or an "
     "error when none applies; unsupported types -> UnsupportedDeviceType; missing directory -> an error or that directory treated as empty. "
     "In 2/5 of the cases every candidate is saved again in place (same length; the served one possibly invalid now) and everything is loaded "
     "again - the second versions dated now, like the first, a day before the first, or following first versions dated into the future. "
@@ -410,7 +415,7 @@ prop(
     "cut at byte b, nothing after) and an interrupted UPDATE run over a generated state (factory files before k restored, file k truncated to b "
     "bytes, the rest as generated). 0-2 reruns. Oracle: no error; every built-in factory file present and byte-identical to its embedded "
     "template (and the embedded templates equal cmd/hidi/hidi-config in the source tree: TestC18Templates); every pre-existing file below user/, "
-    "hidi.toml, the blacklist and extra files byte-identical (hash+size+path set), nothing appears below user/; blacklist created from its "
+    "hidi.toml, the blacklist and extra files byte-identical (hash+size+path set), no file appears below user/ (an empty directory may); blacklist created from its "
     "template iff missing; absent directory -> exactly the full template tree; a rerun leaves the tree snapshot unchanged. "
     "1/4 of the states have backup / temporary entries next to factory files (<file>.tmp, <file>~, .<file>.swp, ... as files or directories). "
     "TestC18Kill interrupts REAL runs instead of constructing their state: a child process runs the upkeep under strace fault injection "
@@ -434,8 +439,9 @@ prop(
 
 _LED_NOTE = ("Trusted: the fake OpenRGB server in orgb.go (the protocol subset of realbucksavage/openrgb-go), the sysfs fixture bind-mounted over "
              "/sys/class/hidraw in a private mount namespace (unshare -m), the overlay hook that sets the handler's event name, EV_SYN / CC fences. "
-             "LED refresh timing is the real one (10 ms cycle); an observation evaluates the newest frame once at least 3 frames have arrived after "
-             "the fence and keeps polling for 3 s before it reports a persistent mismatch.")
+             "LED refresh timing is the real one (10 ms cycle); an observation evaluates the newest frame once at least 3 frames have arrived after the fence - or, for a loop that sends a frame only "
+             "when the picture changes, the frame that stands 60 ms after the fence and still stands 40 ms later - "
+             "and keeps polling for 3 s before it reports a persistent mismatch.")
 
 prop(
     "C17", "exploration",
